@@ -25,6 +25,9 @@ def check_C11(ctx):
         fd.rule_cloexec(ctx, cfg, F, model)
         ctx.rule("CLOEXEC").floor("creating_calls[%s]" % cfg, 6, cfg)
         fd.rule_no_forget(ctx, cfg, F)
+        ipcl.rule_shm_unlink(ctx, cfg, F)
+        if cfg == "K1":
+            ctx.rule("SHM-UNLINK-FIRST").floor("named_objects[%s]" % cfg, 1, cfg)
         with fd.domain("mem"):
             mmodel = fd.build_model(F)
             fd.rule_fd_path(ctx, cfg, F, mmodel, "ALLOC-PAIR", "every malloc/mmap result is, on every normal path, released exactly once (freed/unmapped, moved into an "
@@ -56,6 +59,9 @@ def check_C14(ctx):
         tls.rule_args_owned(ctx, cfg, F)
         ctx.rule("SEND-ARGS-OWNED").floor("send_fns[%s]" % cfg, 1, cfg)
         ipcl.rule_buf_fresh(ctx, cfg, F)
+    for cfg, F in ctx.configs(["K1", "K2"]):
+        # a refused send releases what it took: no endpoint of the message survives an error exit of the platform send
+        fd.rule_fd_path(ctx, cfg, F, fd.build_model(F))
     ctx.assume("bincode::serialize_into / bincode::deserialize are the only entry points through which user Serialize/Deserialize code runs inside the bracket")
     ctx.assume("unwind paths excluded: a panicking Serialize impl is outside the rule")
 
@@ -129,6 +135,9 @@ def check_C16(ctx):
         decode.rule_decode_reader(ctx, cfg, F)
         ctx.rule("DECODE-READER").floor("decode_sites[%s]" % cfg, 1, cfg)
     for cfg, F in ctx.configs(["K1", "K2"]):
+        # an attachment no encoder of this crate produces (an empty region from a peer using the platform API) must not panic the receiver
+        mem.rule_map_guard(ctx, cfg, F)
+    for cfg, F in ctx.configs(["K1", "K2"]):
         model = fd.build_model(F)
         fd.rule_fd_drop(ctx, cfg, F, model)
     ctx.assume("bincode and serde return Err (do not panic or over-allocate) on malformed input")
@@ -166,6 +175,8 @@ def check_C18(ctx):
         ctx.rule("SETLEN-CAP").floor("set_len_sites[%s]" % cfg, 1, cfg)
         send.rule_fd_bound(ctx, cfg, F)       # what is written into / expected from the receiver's control buffer stays within its capacity
         mem.rule_uaf_guard(ctx, cfg, F)
+        mem.rule_map_guard(ctx, cfg, F)
+        ctx.rule("MAP-GUARD").floor("mmap_sites[%s]" % cfg, 1, cfg)
         ctx.rule("UAF-GUARD").floor("guards[%s]" % cfg, 1, cfg)
         with fd.domain("mem"):
             model = fd.build_model(F)
@@ -195,6 +206,8 @@ def check_C10(ctx):
         recv.rule_timeout_arm(ctx, cfg, F)
         ctx.rule("TIMEOUT-ARM").floor("poll_sites[%s]" % cfg, 1, cfg)
     for cfg, F in ctx.configs(["K1", "K3"]):
+        recv.rule_try_conv(ctx, cfg, F)
+        ctx.rule("TRY-CONV").floor("polling_fns[%s]" % cfg, 3, cfg)
         recv.rule_mode_table(ctx, cfg, F)
         ctx.rule("MODE-TABLE").floor("entry_points[%s]" % cfg, 8, cfg)
         recv.rule_err_map(ctx, cfg, F)
@@ -221,6 +234,9 @@ def check_C03(ctx):
         model = fd.build_model(F)
         fd.rule_fd_drop(ctx, cfg, F, model)
         fd.rule_close_owned(ctx, cfg, F, model)
+        # a sending end that leaks on an error exit, or that a spawned program inherits, keeps the channel connected after the last handle is gone
+        fd.rule_fd_path(ctx, cfg, F, model)
+        fd.rule_cloexec(ctx, cfg, F, model)
         _sender_shape(ctx, cfg, F)
     for cfg, F in ctx.configs(["K3"]):
         recv.rule_inproc_classes(ctx, cfg, F)
@@ -298,6 +314,8 @@ def check_C09(ctx):
         fd.rule_fd_drop(ctx, cfg, F, model)
         # a receiver that exists nowhere for the program must not survive as a leaked descriptor (sends to it would keep succeeding)
         fd.rule_fd_path(ctx, cfg, F, model)
+        # ... nor as a descriptor a spawned program inherited
+        fd.rule_cloexec(ctx, cfg, F, model)
     ctx.assume("Linux does not raise SIGPIPE for send on a SOCK_SEQPACKET socket whose peer is closed (EPIPE is returned)")
 
 
@@ -314,7 +332,15 @@ def _result_used(ctx, cfg, F):
             if (nm.endswith("::OsIpcSender::send") and f.path.startswith("ipc::")) or (nm == "crossbeam_channel::Sender::send" and "inprocess::OsIpcSender::send" in f.path):
                 n += 1
                 tr = Tracer(f)
-                ok = any(r.kind == "call" and r.block == b for r in tr.roots(0)) or any(r.kind == "call" and r.block == b for r in tr.roots(0, (("f", 0, ""),)))
+                def through_conversions(roots, depth=0):
+                    # an error converted by hand (`Err(e) => Err(io::Error::from(e))`) still is that error
+                    out = set()
+                    for r in roots:
+                        out.add(r)
+                        if r.kind == "call" and depth < 4 and strip_generics(f.term(r.block).get("callee") or "") in ("std::convert::From::from", "std::convert::Into::into") and f.term(r.block)["args"]:
+                            out |= through_conversions(tr.roots_of_operand(f.term(r.block)["args"][0]), depth + 1)
+                    return out
+                ok = any(r.kind == "call" and r.block == b for r in through_conversions(tr.roots(0))) or any(r.kind == "call" and r.block == b for r in through_conversions(tr.roots(0, (("f", 0, ""),))))
                 if ok:
                     R.ok("%s returns the result of %s" % (f.path, nm), f.loc(b), cfg)
                 else:
@@ -364,6 +390,12 @@ def check_C02(ctx):
         send.rule_one_packet(ctx, cfg, F)
         recv.rule_msg_commit(ctx, cfg, F)
         recv.rule_trunc_err(ctx, cfg, F)
+        # a timed receive that poll() reports ready must read: returning closed/empty instead loses the queued messages
+        recv.rule_timeout_arm(ctx, cfg, F)
+        ctx.rule("TIMEOUT-ARM").floor("poll_sites[%s]" % cfg, 1, cfg)
+    for cfg, F in ctx.configs(["K1", "K3"]):
+        # through a set (router, async): two live members under one id mix their messages
+        rset.rule_set_id(ctx, cfg, F, "unix" if cfg == "K1" else "inprocess")
     for cfg, F in ctx.configs(["K1"]):
         # delivery through a receiver set: edge-triggered readiness means a member not drained loses (never delivers) messages
         rset.rule_set_unix(ctx, cfg, F)
@@ -412,6 +444,9 @@ def check_C06(ctx):
         model = fd.build_model(F)
         fd.rule_close_owned(ctx, cfg, F, model)
         _add_by_value(ctx, cfg, F)
+        # a member is reported closed exactly when its channel is: the closed class comes from a zero-length read of the member's own socket, and
+        # an aborted multi-fragment message is not turned into an error that makes select() drop the rest of the batch
+        recv.rule_closed_origin(ctx, cfg, F)
     for cfg, F in ctx.configs(["K3"]):
         rset.rule_set_id(ctx, cfg, F, "inprocess")
         ctx.rule("SET-ID").floor("next_sites[%s]" % cfg, 1, cfg)
@@ -464,6 +499,11 @@ def check_C04(ctx):
         ctx.rule("SPLIT-ORDER").floor("order_sites[%s]" % cfg, 3, cfg)
         ipcl.rule_split_classify(ctx, cfg, F)
         ctx.rule("SPLIT-CLASSIFY").floor("descriptor_loads[%s]" % cfg, 1, cfg)
+        # the blocking mode lives in the open file description and travels with the endpoint: no cached copy beside the descriptor
+        recv.rule_nb_pair(ctx, cfg, F)
+        recv.rule_nb_mode(ctx, cfg, F)
+        # a message that carries more endpoints than the receiver's control buffer holds is refused, not truncated
+        send.rule_fd_bound(ctx, cfg, F)
     ctx.assume("the kernel passes descriptors in SCM_RIGHTS in array order")
 
 
@@ -490,6 +530,12 @@ def check_C01(ctx):
         ctx.rule("RECV-CAP-CONST").floor("capacity_sites[%s]" % cfg, 1, cfg)
         recv.rule_timeout_arm(ctx, cfg, F)
         ctx.rule("TIMEOUT-ARM").floor("poll_sites[%s]" % cfg, 1, cfg)
+        # the matching blocking receive waits for the value: the descriptor is left in blocking mode by every polling receive
+        recv.rule_nb_pair(ctx, cfg, F)
+        recv.rule_nb_mode(ctx, cfg, F)
+        # an accepted send transmitted every fragment: no transmission error is swallowed (other than the guarded retry)
+        send.rules_send_flow(ctx, cfg, F, "C09")
+        ctx.rule("SEND-PROP").floor("fallible_calls[%s]" % cfg, 3, cfg)
         recv.rule_msg_commit(ctx, cfg, F)
     for cfg, F in ctx.configs(["K1", "K3"]):
         ipcl.rule_whole_buf(ctx, cfg, F)
@@ -513,6 +559,8 @@ def check_C05(ctx):
         ctx.rule("SHM-LEN").floor("fill_ctors[%s]" % cfg, 2, cfg)
         ipcl.rule_shm_sibling(ctx, cfg, F)
         ctx.rule("SHM-SIBLING").floor("create_shmem[%s]" % cfg, 1, cfg)
+        ctx.rule("SHM-SIBLING").floor("store_creations[%s]" % cfg, 1, cfg)
+        mem.rule_map_guard(ctx, cfg, F)
         with fd.domain("mem"):
             mmodel = fd.build_model(F)
             fd.rule_fd_path(ctx, cfg, F, mmodel, "ALLOC-PAIR", "every mmap result is unmapped exactly once or moved into the region type whose Drop unmaps it")
@@ -526,6 +574,9 @@ def check_C05(ctx):
         ctx.rule("IDX-BASE").floor("send_lists[%s]" % cfg, 4, cfg)
     for cfg, F in ctx.configs(["K1", "K2"]):
         ipcl.rule_split_classify(ctx, cfg, F)
+        ctx.rule("SPLIT-CLASSIFY").floor("descriptor_loads[%s]" % cfg, 1, cfg)
+        # the per-message socket comes after the regions in a fragmented message: it is the one taken from the end, never mapped as a region
+        send.rule_dedicated_last(ctx, cfg, F)
     for cfg, F in ctx.configs(["K3"]):
         ipcl.rule_shm_inproc(ctx, cfg, F)
         ctx.rule("SHM-INPROC").floor("inproc_constructions[%s]" % cfg, 2, cfg)
@@ -543,6 +594,8 @@ def check_C08(ctx):
         oss.rule_oss_own(ctx, cfg, F, "unix")
         oss.rule_oss_name(ctx, cfg, F, "unix")
         oss.rule_oss_samefd(ctx, cfg, F)
+        oss.rule_oss_addr(ctx, cfg, F)
+        ctx.rule("OSS-ADDR").floor("address_uses[%s]" % cfg, 2, cfg)
         ctx.rule("OSS-SAMEFD").floor("accept_sites[%s]" % cfg, 1, cfg)
         model = fd.build_model(F)
         fd.rule_fd_path(ctx, cfg, F, model)
@@ -570,6 +623,8 @@ LEVEL["C20"] = ("Decides the protocol-shape clauses of C20 only (feature `async`
 def check_C20(ctx):
     for cfg, F in ctx.configs(["K4", "K5"] + (["K6", "K8"] if ctx.tier == "thorough" else [])):
         asyn.rule_as_order(ctx, cfg, F)
+        asyn.rule_as_poll(ctx, cfg, F)
+        ctx.rule("AS-POLL").floor("poll_fns[%s]" % cfg, 1, cfg)
         ctx.rule("AS-ORDER").floor("to_stream[%s]" % cfg, 1, cfg)
         asyn.rule_as_loop(ctx, cfg, F)
         router.rule_batch_order(ctx, cfg, F, "AS-BATCH-ORDER", only_prefix="asynch::")
@@ -626,6 +681,10 @@ def check_C19(ctx):
     # shared memory: each backend keeps (pointer, length, backing object) coupled, also for received and cloned regions
     for cfg, F in ctx.configs(["K1", "K2"]):
         ipcl.rule_shm_couple(ctx, cfg, F)
+        # attachments of a fragmented message: the OS backends sort descriptors by their own kind, as the in-process backend keeps typed lists
+        ipcl.rule_split_classify(ctx, cfg, F)
+        ctx.rule("SPLIT-CLASSIFY").floor("descriptor_loads[%s]" % cfg, 1, cfg)
+        send.rule_dedicated_last(ctx, cfg, F)
     for cfg, F in ctx.configs(["K3"]):
         ipcl.rule_shm_inproc(ctx, cfg, F)
     ctx.assume("the macOS and Windows backends cannot be type-checked on this host and are out of scope")
